@@ -60,6 +60,10 @@ class IdRoot(KDDataset):
             return torch.tensor(self.class_of(idx))
         if f == "onehot_int64":
             return self.label_vector(idx).long()
+        if f == "soft_numpy":
+            return self.label_vector(idx).numpy().copy()
+        if f == "soft_list":
+            return self.label_vector(idx).tolist()
         if f == "soft_float64":
             return self.label_vector(idx).double()
         return self.label_vector(idx)  # soft_float32
@@ -134,6 +138,40 @@ def decode(root, i, x, y, unify):
                                                                     f"(label {[round(v, 4) for v in y.tolist()]})")
 
 
+class View:
+    """what the mix wrapper sees when an index-changing layer lies between it and the root: sample k of the view is sample perm[k] of
+    the root (the decoder works on the view - partners are drawn in the view's index space and loaded through it)"""
+
+    def __init__(self, root, perm):
+        self.root, self.perm, self.n = root, perm, len(perm)
+
+    @property
+    def C(self):
+        return self.root.C
+
+    @C.setter
+    def C(self, v):
+        self.root.C = v
+
+    @property
+    def unlabeled_every(self):
+        return self.root.unlabeled_every
+
+    def getitem_x(self, k):
+        return self.root.getitem_x(self.perm[k])
+
+    def label_vector(self, k):
+        return self.root.label_vector(self.perm[k])
+
+    def is_unlabeled(self, k):
+        return self.root.is_unlabeled(self.perm[k])
+
+
+class _Identity:
+    def __call__(self, x):
+        return x
+
+
 def build(spec):
     from kappadata.wrappers import KDMixWrapper
     n = spec["n"]
@@ -143,7 +181,11 @@ def build(spec):
         shapes = [[max(1, s + int(g.integers(-2, 3))) for s in base] for _ in range(n)]
     else:
         shapes = [list(base)] * n
-    root = IdRoot(n, spec["C"], spec["key"], shapes)
+    below = spec.get("below")
+    n_root = n + 3 if below else n
+    if below:
+        shapes = shapes + [shapes[0]] * 3
+    root = IdRoot(n_root, spec["C"], spec["key"], shapes)
     root.label_form = spec.get("label_form") or "int"
     if root.label_form == "int" and spec.get("unlabeled"):
         root.unlabeled_every = spec["unlabeled"]
@@ -152,20 +194,30 @@ def build(spec):
         if seed is not None and spec.get("seed_form") == "numpy":
             seed = np.int64(seed)  # a seed taken from an array of seeds
         unify_mode = "pad_or_cut_end" if spec["unify"] else None
+        base, view = root, root
+        if below:
+            # a subset (a permuted selection of n of the n + 3 root samples) between the mix wrapper and the root
+            from kappadata.datasets import KDSubset
+            perm = [int(i) for i in np.random.default_rng([spec["key"], 5]).permutation(n_root)[:n]]
+            base, view = KDSubset(root, perm), View(root, perm)
         extra = {}
         if spec.get("cutmix_p"):
             # cutmix is configured next to mixup: its draws are refused (NotImplementedError), every other draw behaves as without it
             extra = dict(cutmix_p=spec["cutmix_p"], cutmix_alpha=1.0)
         if spec.get("reassign_unify"):
             # the wrapper is re-configured after construction (public attribute): the mode that is set when a sample is requested counts
-            ds = KDMixWrapper(root, mixup_p=spec["p"], mixup_alpha=spec["alpha"], seed=seed,
+            ds = KDMixWrapper(base, mixup_p=spec["p"], mixup_alpha=spec["alpha"], seed=seed,
                               mixup_unify_shapes_mode=None if unify_mode else "pad_or_cut_end", **extra)
             ds.mixup_unify_shapes_mode = unify_mode
         else:
-            ds = KDMixWrapper(root, mixup_p=spec["p"], mixup_alpha=spec["alpha"], seed=seed, mixup_unify_shapes_mode=unify_mode, **extra)
+            ds = KDMixWrapper(base, mixup_p=spec["p"], mixup_alpha=spec["alpha"], seed=seed, mixup_unify_shapes_mode=unify_mode, **extra)
+        if spec.get("above"):
+            # a transform wrapper (identity transform) above the mix wrapper: joint requests still come from one draw
+            from kappadata.wrappers import XTransformWrapper
+            ds = XTransformWrapper(ds, transform=_Identity())
     except AssertionError:
         raise Refused("constructor assertion")
-    return root, ds
+    return view, ds
 
 
 def check(spec):
@@ -201,6 +253,8 @@ def _check(spec):
                     continue  # a cutmix draw: refused, as documented
                 raise
             except Exception:
+                if spec.get("label_form") in ("soft_numpy", "soft_list"):
+                    continue  # label vectors that are not tensors: refused by the library (if a version answers, the answer is judged)
                 if root.unlabeled_every:
                     continue  # an unlabeled sample (or partner) cannot be given a label vector: refused by the library (whatever is requested)
                 raise
@@ -238,7 +292,9 @@ def check_p1(spec):
     """probability one mixes every sample: over n>=32 distinct samples at most half may look untouched"""
     # mixup_p = 1, or mixup_p + cutmix_p = 1 (cutmix draws are refused, every other draw must mix)
     cp = spec.get("cutmix_p")
-    root, ds = build(dict(spec, p=1.0 - cp if cp else 1.0, unify=False, unlabeled=0, reassign_unify=False))
+    lf = spec.get("label_form")
+    root, ds = build(dict(spec, p=1.0 - cp if cp else 1.0, unify=False, unlabeled=0, reassign_unify=False,
+                          label_form="soft_float32" if lf in ("soft_numpy", "soft_list") else lf))
     n = spec["n"]
     untouched = 0
     answered = 0
@@ -280,7 +336,8 @@ def spec_s(draw, big=False):
             "unify": False if big else draw(st.booleans()), "p": draw(st.sampled_from([1.0, 0.5, 0.2, 0.9])),
             "alpha": draw(st.sampled_from([0.1, 0.8, 1.0, 4.0])), "seed": draw(st.one_of(st.none(), st.integers(0, 2 ** 31))),
             "seed_form": draw(st.sampled_from(["int", "int", "numpy"])),
-            "label_form": draw(st.sampled_from(["int", "int", "int", "tensor0d", "onehot_int64", "soft_float64", "soft_float32"])),
+            "label_form": draw(st.sampled_from(["int", "int", "int", "tensor0d", "onehot_int64", "soft_float64", "soft_float32", "soft_numpy", "soft_list"])),
+            "below": draw(st.booleans()), "above": draw(st.booleans()),
             "default_dtype": draw(st.sampled_from([None, None, None, "float64"])),
             "C2": draw(st.sampled_from([None, None, None, 2, 3, 7, 10])),
             "cutmix_p": draw(st.sampled_from([None, None, 0.5, 0.25])), "reassign_unify": draw(st.booleans()),
